@@ -995,3 +995,7 @@ mod tests {
         assert!(array.is_null(4));
     }
 }
+
+#[cfg(kani)]
+#[path = "/verif/kani/arrow-array/builder/generic_bytes_builder.rs"]
+mod verif_kani;
